@@ -6,6 +6,26 @@ VERIF = os.path.dirname(os.path.dirname(os.path.abspath(__file__)))
 
 # id -> (level category, technique, level text, level note, design ref)
 CHECKS = {
+    "C01": ("exploration",
+            "enumeration of every message length x every sealing form x container; byte-differential vs libsodium; round-trip and cross-open through every opener",
+            "Every message length 0..=L (plus multi-KiB) is sealed through every classic and object-API form with several containers (heap/locked containers in a nightly sub-run) and compared byte-for-byte with libsodium; each result is opened by libsodium and by all 20 dryoc openers; dryoc-sealed boxes (internal ephemeral key) are structurally checked with the reference and opened by libsodium and vice versa.",
+            "Keys, nonces and contents are seeded samples; honest key pairs are made by libsodium from seeds.",
+            "DESIGN.md §3 C01"),
+    "C03": ("exploration",
+            "model-based stateful proptest: operation histories interpreted in lock-step against libsodium's secretstream, state compared after every step through the verif_hooks accessor",
+            "Random histories of push / rekey / in-order delivery / wrong delivery (replay, skip, foreign stream, wrong AD, bit flip, truncate) from six counter classes incl. 0xfffffffe/0xffffffff; ciphertexts and both states must equal libsodium's after every step, wrong deliveries must be rejected leaving the pull state bit-identical, and the genuine next message must then be accepted; failing histories shrink.",
+            "libsodium is the reference state machine; counter wrap reached only through the feature-guarded constructor; bounded history depth.",
+            "DESIGN.md §3 C03"),
+    "C04": ("exploration",
+            "enumeration of every input length x content class x entry point, all 256 stream tags, grammar-based proptest password-hash strings; oracle: no panic (overflow checks on) and bounded allocation (counting allocator)",
+            "Every attacker-facing opener/verifier/parser is called on every input length 0..=200 in seven content classes with caller buffers sized the documented way, on authentic stream messages with every tag byte, and on grammar-generated, random and mutated password-hash strings with bounded cost; a panic, an overflow or an oversized allocation is a violation. The libFuzzer target (fuzz/) runs the same oracle coverage-guided.",
+            "Release build with overflow-checks on; allocation bound is a heuristic threshold (4*len + 1 MiB); cost parameters bounded as the property states.",
+            "DESIGN.md §3 C04"),
+    "C05": ("exploration",
+            "constructed point/scalar tables + proptest random pairs; oracle: RFC 7748 big-integer ladder, libsodium, HSalsa20 model; kx accept/reject differential",
+            "The complete low-order / non-canonical / high-bit encoding table crossed with special scalars (0, 0xff.., L, 8L, single bits), thousands of uniformly random encodings (about half on the twist) and honest pairs; crypto_scalarmult must equal a big-integer RFC 7748 ladder everywhere and libsodium wherever it answers, beforenm and kx keys must equal libsodium's, kx must refuse exactly when libsodium does.",
+            "BigUint model pinned by RFC 7748 vectors; sampled scalars/points outside the tables.",
+            "DESIGN.md §3 C05"),
     "C02": ("fault_enumeration",
             "exhaustive single-fault enumeration (every bit flip / truncation / extension) x every opening entry point; oracle Err + libsodium also rejects",
             "For each enumerated message length every single-bit corruption of tag, ciphertext, nonce, symmetric/precomputed/stream key, sealed-box ephemeral key, stream header and AD, every truncation and an extension family is applied to an authentic libsodium-made message and presented to every dryoc opener (classic and object API); each must return Err, the control Ok(original).",
